@@ -252,7 +252,7 @@ class PoolWorld(WorldBase):
                 break
         op = {'op': 'batch_pool', 'frames': frames, 'chain': chain, 'export': ch.choice(['items', 'to_frame', 'to_bus', 'items_partial', 'to_frame_axis1']),
               'source': ch.choice(['from_frames', 'items_gen', 'bus_items', 'items_eq_labels', 'items_own_labels']), 'dirty_go': ch.chance(0.25),
-              'none_at': ch.randint(0, n - 1), 'eq_off': ch.randint(0, 7), 'except_any': ch.chance(0.3)}
+              'none_at': ch.randint(0, n - 1), 'eq_off': ch.randint(0, 7), 'except_any': ch.chance(0.3), 'tf_auto': ch.chance(0.25)}
         op.update(self._pool_params(ch, n))
         if op.get('fail_at') is not None:
             op['fail_at'] = ch.randint(0, n - 1)
@@ -699,9 +699,10 @@ class PoolWorld(WorldBase):
             del it
             return out
         if ex == 'to_frame':
-            return b.to_frame()
+            # optionally relabel the axis that is not extended (auto-integer labels): an argument of the exporter, not of the results
+            return b.to_frame(index=sf.IndexAutoFactory) if op.get('tf_auto') else b.to_frame()
         if ex == 'to_frame_axis1':
-            return b.to_frame(axis=1)
+            return b.to_frame(axis=1, columns=sf.IndexAutoFactory) if op.get('tf_auto') else b.to_frame(axis=1)
         return b.to_bus()
 
     # ------------------------------------------------------------------ C19.batch: Batch vs per-label application
@@ -880,6 +881,8 @@ class PoolWorld(WorldBase):
                             outer.append((norm(k),) + lab if (own_hier and isinstance(lab, tuple)) else (norm(k), lab))
                             rows.append(row)
                     want = {'outer': outer, 'inner': col0, 'cells': rows if axis == 0 else [list(r) for r in zip(*rows)], 'axis': axis}
+            if want is not None and op2.get('tf_auto'):
+                want['outer'] = list(range(len(want['outer'])))  # the exporter was asked for auto-integer labels along the extended axis
             if want is not None:
                 if exp[0] == 'raise':
                     raise Violation('C19.batch', 'Batch.' + ex, cls, f'exporter raised {type(exp[1]).__name__}: {exp[1]}')
